@@ -429,7 +429,7 @@ func RunC03(ctx *core.Ctx) {
 			}
 			back, err := e.Reconstruct(rows.Interface())
 			if err != nil && e.OpenReadBack != "" {
-				ctx.Observe("open-finding "+e.OpenReadBack+" api=reconstruct "+errClass(err), "Schema.Reconstruct(Deconstruct(v)) failed: "+err.Error(), map[string]any{"type": e.Name, "rows": fmt.Sprintf("%+v", rows.Interface())})
+				ctx.Fail("L1", e.OpenReadBack+" api=reconstruct "+errClass(err), "Schema.Reconstruct(Deconstruct(v)) failed: "+err.Error(), map[string]any{"type": e.Name, "rows": fmt.Sprintf("%+v", rows.Interface())})
 			} else if err != nil {
 				ctx.Fail("L1", "reconstruct-error "+mapTag+" "+errClass(err), "Schema.Reconstruct(Deconstruct(v)) failed: "+err.Error(), map[string]any{"type": e.Name, "rows": fmt.Sprintf("%+v", rows.Interface())})
 			} else if ok, diff := gen.CanonEqualOpt(rows, reflect.ValueOf(back), e.Name); !ok {
@@ -456,7 +456,7 @@ func RunC03(ctx *core.Ctx) {
 				}
 				got, err := e.ReadAll(bytes.NewReader(file), int64(len(file)))
 				if err != nil && e.OpenReadBack != "" {
-					ctx.Observe("open-finding "+e.OpenReadBack+" api=read "+errClass(err), "Read[T] of the file written by path "+p.name+" failed: "+err.Error(), map[string]any{"type": e.Name, "path": p.name, "rows": fmt.Sprintf("%+v", rows.Interface())})
+					ctx.Fail("L1", e.OpenReadBack+" api=read "+errClass(err), "Read[T] of the file written by path "+p.name+" failed: "+err.Error(), map[string]any{"type": e.Name, "path": p.name, "rows": fmt.Sprintf("%+v", rows.Interface())})
 				} else if err != nil {
 					ctx.Fail("L1", "readback-error "+mapTag+" path="+p.name+" "+errClass(err), err.Error(), map[string]any{"type": e.Name, "rows": fmt.Sprintf("%+v", rows.Interface())})
 				} else if ok, diff := gen.CanonEqual(rows, reflect.ValueOf(got), e.Name); !ok {
